@@ -13,6 +13,7 @@ import (
 	"pgregory.net/rapid"
 
 	"verifharness/ev"
+	"verifharness/protoparse"
 	"verifharness/yanggen"
 )
 
@@ -89,12 +90,49 @@ var (
 	negFirstRE      = regexp.MustCompile(`must be zero in proto3, have \S+ = -\d+`)
 )
 
-// underscorePkgDefines reports whether the output has a package "<base>._" (MakeNameUnique of
-// the empty package name) that defines message typ.
+// underscorePkgDefines reports whether the output has a package "<base>._", "<base>.__", ...
+// (MakeNameUnique of the empty package name: one more underscore for every further module with
+// top-level nodes) that defines message typ.
 func underscorePkgDefines(po *protoOut, f protoFlags, typ string) bool {
-	rel := filepath.Join(strings.ReplaceAll(f.PackageName, ".", "/"), "_", "_.proto")
-	raw, ok := po.Raw[rel]
-	return ok && strings.Contains(raw, "package "+f.PackageName+"._;") && strings.Contains(raw, "\nmessage "+typ+" {")
+	base := strings.ReplaceAll(f.PackageName, ".", "/")
+	for rel, raw := range po.Raw {
+		us := filepath.Base(filepath.Dir(rel))
+		if us == "" || strings.Trim(us, "_") != "" || rel != filepath.Join(base, us, us+".proto") {
+			continue
+		}
+		if strings.Contains(raw, "package "+f.PackageName+"."+us+";") && strings.Contains(raw, "\nmessage "+typ+" {") {
+			return true
+		}
+	}
+	return false
+}
+
+// isNestedListKeyMessage reports whether the message with the given full name has the shape of
+// the key message genListKeyProto emits with nested messages: it is called <List>Key and its last
+// field is the plain, non-repeated reference "<List> <list> = <number of keys + 1>".
+func isNestedListKeyMessage(po *protoOut, full string) bool {
+	list := strings.TrimSuffix(lastComponent(full), "Key")
+	found := false
+	for _, pf := range po.Files {
+		pf.WalkMessages(func(name string, m *protoparse.Message) {
+			if name != full || len(m.Fields) < 2 {
+				return
+			}
+			last := m.Fields[len(m.Fields)-1]
+			keys := map[string]bool{} // a union key is one oneof, however many members it has
+			for _, fl := range m.Fields[:len(m.Fields)-1] {
+				if fl.Oneof >= 0 {
+					keys[fmt.Sprintf("oneof %d", fl.Oneof)] = true
+				} else {
+					keys[fl.Name] = true
+				}
+			}
+			if last.TypeName == list && !last.Repeated && last.Oneof < 0 && last.Number == int64(len(keys))+1 {
+				found = true
+			}
+		})
+	}
+	return found
 }
 
 var singletonCache = map[string]map[string]bool{}
@@ -222,14 +260,20 @@ func excused(rec *ev.Rec, src schemaSrc, f protoFlags, po *protoOut, p problem) 
 		switch {
 		// F53: enum-typed list key in a nested key message, enums import lost
 		case strings.HasPrefix(typ, enumRef) && strings.HasSuffix(scope, "Key"):
-			return rec.Excuse(fKeyEnumImport, !f.Hierarchy && !strings.Contains(raw, "/"+f.EnumPackage+"/"+f.EnumPackage+".proto\";"))
+			return rec.Excuse(fKeyEnumImport, f53EnumActive && !f.Hierarchy && !strings.Contains(raw, "/"+f.EnumPackage+"/"+f.EnumPackage+".proto\";"))
+		// F53 (same discarded result of the nested key message, its UsesYwrapperImport flag): a
+		// decimal64 list key - the only key type mapped to a ywrapper message, plain or as a
+		// union member - in a file none of whose non-key fields uses a ywrapper type
+		case typ == "ywrapper.Decimal64Value" && strings.HasSuffix(scope, "Key"):
+			return rec.Excuse(fKeyEnumImport, f53DecimalActive && !f.Hierarchy && !strings.Contains(raw, "import \""+filepath.Join(f.YwrapperPath, "ywrapper.proto")+"\";") &&
+				isNestedListKeyMessage(po, scope))
 		// F57: -package_hierarchy, the message generated for a leaf-list of unions is a sibling
 		// of the message that holds the union's inline enum
 		case f.Hierarchy && m != nil && !strings.Contains(typ, ".") && strings.HasSuffix(typ, "Enum") && strings.HasSuffix(lastComponent(scope), "Union") &&
 			m[1] == typ && strings.HasSuffix(m[2], "_"+strings.ToLower(typ)):
 			return rec.Excuse(fUnionEnumRef, true)
-		// F55: -compress_paths -package_hierarchy, top-level nodes of a second module are put
-		// into package "<base>._" but referenced as if they were in "<base>"
+		// F55: -compress_paths -package_hierarchy, top-level nodes of a second (third, ...) module
+		// are put into package "<base>._" ("<base>.__", ...) but referenced as if they were in "<base>"
 		case f.Compress && f.Hierarchy && !strings.Contains(typ, ".") && underscorePkgDefines(po, f, typ):
 			return rec.Excuse(fRootPkgUnique, true)
 		// F52: top-level list under the fake root: "<List> <list> = N;" inside <FakeRoot>.<List>Key
@@ -403,10 +447,21 @@ mutation:
 			if err == nil {
 				tg := yi.augmentTargets(yi.rootModuleNames(src.Roots))
 				var ok []augTarget
+				skippedWrappers := 0
 				for _, x := range tg {
-					if !x.Children[nodeName] {
-						ok = append(ok, x)
+					if x.Children[nodeName] {
+						continue
 					}
+					if f.Compress && x.ListWrapper {
+						// a sibling next to the list would make the schema leave the documented
+						// domain of path compression (the list is the sole child of its container)
+						skippedWrappers++
+						continue
+					}
+					ok = append(ok, x)
+				}
+				if skippedWrappers > 0 {
+					rec.Add("augment_targets_skipped:list-wrapper-under-compress", int64(skippedWrappers))
 				}
 				if len(ok) > 0 {
 					x := ok[pickTarget(len(ok))]
